@@ -245,6 +245,7 @@ type calleeShape struct {
 	ptypes   []string
 	variadic bool
 	results  []string // result var names in the inlined block (named results keep their name)
+	exits    []string // the variables a return site assigns before it leaves the block (== results unless named)
 	rtypes   []string
 	namedRes bool
 }
@@ -303,6 +304,15 @@ func (il *inliner) shapeOf(fd *ast.FuncDecl, id int) calleeShape {
 				sh.rtypes = append(sh.rtypes, t)
 				k++
 			}
+		}
+	}
+	sh.exits = sh.results
+	if sh.namedRes {
+		// named results live in the body's own scope (a `x, err := f()` at the top level of the body
+		// re-uses them); the values a return hands out are copied to separate exit variables
+		sh.exits = make([]string, len(sh.results))
+		for i := range sh.results {
+			sh.exits[i] = fmt.Sprintf("x%d__inl%d", i, id)
 		}
 	}
 	return sh
@@ -504,8 +514,11 @@ func (il *inliner) rewriteBody(fd *ast.FuncDecl, sh calleeShape, label string, d
 					}
 					il.inReturnExpr = false
 					if len(sh.results) > 0 {
-						sb.WriteString(strings.Join(sh.results, ", ") + " = " + strings.Join(rs, ", ") + "; ")
+						sb.WriteString(strings.Join(sh.exits, ", ") + " = " + strings.Join(rs, ", ") + "; ")
 					}
+				} else if sh.namedRes && len(sh.results) > 0 {
+					// bare return: the current values of the named results
+					sb.WriteString(strings.Join(sh.exits, ", ") + " = " + strings.Join(sh.results, ", ") + "; ")
 				}
 				sb.WriteString(deferText(x.Pos()))
 				sb.WriteString("goto " + label + " }")
@@ -636,6 +649,16 @@ func (il *inliner) buildBlock(fd *ast.FuncDecl, obj *types.Func, call *ast.CallE
 	} else if len(call.Args) != nfixed {
 		return "", "", "", false
 	}
+	// the exit variables of a callee with named results
+	if sh.namedRes {
+		for i, x := range sh.exits {
+			sb.WriteString(fmt.Sprintf("var %s %s; _ = %s; ", x, sh.rtypes[i], x))
+		}
+	}
+	// the function's own scope: receiver, parameters, named results and the body's top-level
+	// declarations share one block, as in the original
+	outerText := sb.String()
+	sb.Reset()
 	// stage 2: bind the callee's own names
 	k := 0
 	if sh.recvName != "" {
@@ -654,20 +677,32 @@ func (il *inliner) buildBlock(fd *ast.FuncDecl, obj *types.Func, call *ast.CallE
 		}
 		sb.WriteString(fmt.Sprintf("var %s %s = %s; _ = %s; ", p, sh.ptypes[i], tmpNames[k+i], p))
 	}
-	// results inside the block
-	for i, r := range sh.results {
-		sb.WriteString(fmt.Sprintf("var %s %s; _ = %s; ", r, sh.rtypes[i], r))
+	// results: named ones in the function's scope, unnamed ones (== exit variables) outside it
+	inner := sb.String()
+	sb.Reset()
+	sb.WriteString(outerText)
+	if !sh.namedRes {
+		for i, r := range sh.results {
+			sb.WriteString(fmt.Sprintf("var %s %s; _ = %s; ", r, sh.rtypes[i], r))
+		}
+	} else {
+		for i, r := range sh.results {
+			inner += fmt.Sprintf("var %s %s; _ = %s; ", r, sh.rtypes[i], r)
+		}
 	}
 	// the body in a block of its own (a goto must not jump over its declarations); its exits
-	// assign the inner results, then jump to the copy-out
-	sb.WriteString("{\n")
+	// assign the exit variables, then jump to the copy-out
+	sb.WriteString("{ " + inner + "\n")
 	sb.WriteString(body)
+	if sh.namedRes && len(sh.results) > 0 {
+		// falling off the end is impossible for a function with results; nothing to copy
+	}
 	sb.WriteString("\n}\n")
 	if usedGoto {
 		sb.WriteString(label + ": _ = 0; ")
 	}
 	if !tail {
-		for i, r := range sh.results {
+		for i, r := range sh.exits {
 			sb.WriteString(fmt.Sprintf("%s = %s; ", resOuter[i], r))
 		}
 	}
